@@ -13,10 +13,11 @@ structure Same (s s' : Side) : Prop where
   highestAcked : s'.highestAcked = s.highestAcked
   factories : s'.factories = s.factories
   pendingOpens : s'.pendingOpens = s.pendingOpens
+  parked : s'.parked = s.parked
 
-theorem Same.rfl' {s : Side} : Same s s := ⟨rfl, rfl, rfl, rfl, rfl, rfl⟩
+theorem Same.rfl' {s : Side} : Same s s := ⟨rfl, rfl, rfl, rfl, rfl, rfl, rfl⟩
 theorem Same.trans {a b c : Side} (h1 : Same a b) (h2 : Same b c) : Same a c :=
-  ⟨h2.1.trans h1.1, h2.2.trans h1.2, h2.3.trans h1.3, h2.4.trans h1.4, h2.5.trans h1.5, h2.6.trans h1.6⟩
+  ⟨h2.1.trans h1.1, h2.2.trans h1.2, h2.3.trans h1.3, h2.4.trans h1.4, h2.5.trans h1.5, h2.6.trans h1.6, h2.7.trans h1.7⟩
 
 /-- what `remote_close` on a just-connected SubChannel tells the protocol / the peer -/
 def closeEffs (k : PKind) (pid seq scid : Nat) : List Eff :=
@@ -56,7 +57,7 @@ theorem feedData_open' (uid p : Nat) (k' : PKind) : ∀ (ds : List Bytes) (s : S
     refine ⟨s', c', ?_, ?_, h3, h4, h5, h6, h7, h8, h9, h10, h11, h12, ?_, ?_⟩
     · unfold feedData; rw [hstep, andThen_none]; exact h1
     · rw [h2]; simp [emit, updSC]
-    · exact ⟨h13.1, h13.2, h13.3, h13.4, h13.5, h13.6⟩
+    · exact ⟨h13.1, h13.2, h13.3, h13.4, h13.5, h13.6, h13.7⟩
     · intro u hu; rw [h14 u hu]; simp [emit, updSC, getElem?_modifyAt, hu]
 
 structure ConnRes (s s' : Side) (uid : Nat) (c : SC) (k : PKind) (ds : List Bytes) (b : Bool) : Prop where
@@ -68,6 +69,8 @@ structure ConnRes (s s' : Side) (uid : Nat) (c : SC) (k : PKind) (ds : List Byte
   open_ : s'.open_ = if b && k == .full then eraseKey c.scid s.open_ else s.open_
   self : ∃ c' : SC, s'.subs[uid]? = some c' ∧ c'.proto = some (s.protoCount, k) ∧ c'.scid = c.scid ∧
     c'.name = c.name ∧ c'.st ≠ .unconnected ∧ (c'.st = .closed ↔ (b = true ∧ k = .full))
+  st : ∀ c' : SC, s'.subs[uid]? = some c' →
+    c'.st = (if b then (if k = .half then .read_closed else .closed) else (if k = .half then .open_half else .open_full))
 
 /-- the state right after buildProtocol, _set_protocol, makeConnection and the queued DATA,
     with `_pending_remote_data` deleted -/
@@ -131,7 +134,7 @@ theorem connect_prefix (s : Side) (uid : Nat) (c : SC) (k : PKind) (ds : List By
     rw [f12]; rfl
   · show s4.open_ = _
     rw [f11]; rfl
-  · exact ⟨f13.1, f13.2, f13.3, f13.4, f13.5, f13.6⟩
+  · exact ⟨f13.1, f13.2, f13.3, f13.4, f13.5, f13.6, f13.7⟩
   · intro u hu
     show (updSC uid (fun c0 => { c0 with pendingData := none }) s4).subs[u]? = _
     simp only [updSC, getElem?_modifyAt, hu, if_false]
@@ -149,11 +152,14 @@ theorem connectSC_spec (s : Side) (uid : Nat) (c : SC) (k : PKind) (ds : List By
   | false =>
     rw [hpc5] at heq
     simp only [Bool.false_eq_true, if_false] at heq
-    refine ⟨s5, heq, ?_, hcount5, by simpa using hseq5, hsame5, hoth5, by simpa using hopen5, ?_⟩
+    refine ⟨s5, heq, ?_, hcount5, by simpa using hseq5, hsame5, hoth5, by simpa using hopen5, ?_, ?_⟩
     · rw [hlog5]; simp [pendEffs]
     · refine ⟨c5, h5, hp5, hscid5, hname5, ?_, ?_⟩
       · rw [hst5]; cases k <;> simp
       · rw [hst5]; cases k <;> simp
+    · intro c' hc'
+      rw [h5] at hc'; cases hc'
+      simpa using hst5
   | true =>
     rw [hpc5] at heq
     simp only [if_true] at heq
@@ -172,11 +178,15 @@ theorem connectSC_spec (s : Side) (uid : Nat) (c : SC) (k : PKind) (ds : List By
           unfold runOut; rw [hc6]; simp only [hp5]
         rw [this]; rfl
       rw [hin, andThen_none] at heq
-      refine ⟨_, heq, ?_, ?_, ?_, ?_, ?_, ?_, ?_⟩
+      refine ⟨_, heq, ?_, ?_, ?_, ?_, ?_, ?_, ?_, ?_⟩
+      rotate_right
+      · intro c' hc'
+        simp [emit, updSC, getElem?_modifyAt, h5] at hc'
+        subst hc'; rfl
       · simp [emit, updSC, hlog5, pendEffs, closeEffs]
       · simp [emit, updSC, hcount5]
       · simp [emit, updSC, hseq5]
-      · exact ⟨hsame5.1, hsame5.2, hsame5.3, hsame5.4, hsame5.5, hsame5.6⟩
+      · exact ⟨hsame5.1, hsame5.2, hsame5.3, hsame5.4, hsame5.5, hsame5.6, hsame5.7⟩
       · intro u hu; simp [emit, updSC, getElem?_modifyAt, hu]; exact hoth5 u hu
       · simp [emit, updSC, hopen5]
       · refine ⟨{ c5 with st := .read_closed, pendingClose := false }, ?_, hp5, hscid5, hname5, by simp, by simp⟩
@@ -210,11 +220,15 @@ theorem connectSC_spec (s : Side) (uid : Nat) (c : SC) (k : PKind) (ds : List By
           andThen_none, h9]
         rfl
       rw [hin, andThen_none] at heq
-      refine ⟨_, heq, ?_, ?_, ?_, ?_, ?_, ?_, ?_⟩
+      refine ⟨_, heq, ?_, ?_, ?_, ?_, ?_, ?_, ?_, ?_⟩
+      rotate_right
+      · intro c' hc'
+        simp [emit, updSC, s8, s7, s6, sendRec, getElem?_modifyAt, h5] at hc'
+        subst hc'; rfl
       · simp [emit, updSC, s8, s7, s6, sendRec, hlog5, pendEffs, closeEffs, hseq5, hscid5]
       · simp [emit, updSC, s8, s7, s6, sendRec, hcount5]
       · simp [emit, updSC, s8, s7, s6, sendRec, hseq5]
-      · exact ⟨hsame5.1, hsame5.2, hsame5.3, hsame5.4, hsame5.5, hsame5.6⟩
+      · exact ⟨hsame5.1, hsame5.2, hsame5.3, hsame5.4, hsame5.5, hsame5.6, hsame5.7⟩
       · intro u hu
         simp [emit, updSC, s8, s7, s6, sendRec, getElem?_modifyAt, hu]; exact hoth5 u hu
       · simp [emit, updSC, s8, s7, s6, sendRec, hopen5, hscid5]
@@ -494,14 +508,14 @@ theorem runOut_extra (uid : Nat) (arg : Bytes) (o : SubChannel.Output) (s : Side
     cases hp : c.pendingData with
     | none => exact ⟨Extra.refl' hc, fun _ => rfl⟩
     | some l0 =>
-      refine ⟨⟨⟨rfl, rfl, rfl, rfl, rfl, rfl⟩, List.Sublist.refl _, fun _ _ => rfl, fun h => absurd rfl h, fun _ => rfl, rfl, fun _ h => h, ?_⟩,
+      refine ⟨⟨⟨rfl, rfl, rfl, rfl, rfl, rfl, rfl⟩, List.Sublist.refl _, fun _ _ => rfl, fun h => absurd rfl h, fun _ => rfl, rfl, fun _ h => h, ?_⟩,
         fun _ => rfl⟩
       intro c' h _
       simp [updSC, getElem?_modifyAt, hc] at h
       subst h; rfl
   case queue_remote_close =>
     simp only [runOut, hc]
-    refine ⟨⟨⟨rfl, rfl, rfl, rfl, rfl, rfl⟩, List.Sublist.refl _, fun _ _ => rfl, fun h => absurd rfl h, fun _ => rfl, rfl, fun _ h => h, ?_⟩,
+    refine ⟨⟨⟨rfl, rfl, rfl, rfl, rfl, rfl, rfl⟩, List.Sublist.refl _, fun _ _ => rfl, fun h => absurd rfl h, fun _ => rfl, rfl, fun _ h => h, ?_⟩,
       fun _ => rfl⟩
     intro c' h hp
     simp [updSC, getElem?_modifyAt, hc] at h
@@ -509,11 +523,11 @@ theorem runOut_extra (uid : Nat) (arg : Bytes) (o : SubChannel.Output) (s : Side
   case send_data =>
     simp only [runOut, hc]
     exact ⟨emitCase (.txData s.nextSeq c.scid arg) _ (fun _ _ h => by cases h) (fun _ _ _ h => by cases h) rfl rfl rfl
-      ⟨rfl, rfl, rfl, rfl, rfl, rfl⟩, fun _ => rfl⟩
+      ⟨rfl, rfl, rfl, rfl, rfl, rfl, rfl⟩, fun _ => rfl⟩
   case send_close =>
     simp only [runOut, hc]
     exact ⟨emitCase (.txClose s.nextSeq c.scid) _ (fun _ _ h => by cases h) (fun _ _ _ h => by cases h) rfl rfl rfl
-      ⟨rfl, rfl, rfl, rfl, rfl, rfl⟩, fun _ => rfl⟩
+      ⟨rfl, rfl, rfl, rfl, rfl, rfl, rfl⟩, fun _ => rfl⟩
   case signal_dataReceived =>
     simp only [runOut, hc]
     cases hp : c.proto with
@@ -521,7 +535,7 @@ theorem runOut_extra (uid : Nat) (arg : Bytes) (o : SubChannel.Output) (s : Side
     | some x =>
       obtain ⟨q, k⟩ := x
       exact ⟨emitCase (.data q arg) _ (fun _ _ h => by cases h) (fun _ _ _ h => by cases h) rfl rfl rfl
-        ⟨rfl, rfl, rfl, rfl, rfl, rfl⟩, fun _ => rfl⟩
+        ⟨rfl, rfl, rfl, rfl, rfl, rfl, rfl⟩, fun _ => rfl⟩
   case signal_readConnectionLost =>
     simp only [runOut, hc]
     cases hp : c.proto with
@@ -532,7 +546,7 @@ theorem runOut_extra (uid : Nat) (arg : Bytes) (o : SubChannel.Output) (s : Side
       | full => exact ⟨Extra.refl' hc, fun _ => rfl⟩
       | half =>
         exact ⟨emitCase (.readLost q) _ (fun _ _ h => by cases h) (fun _ _ _ h => by cases h) rfl rfl rfl
-          ⟨rfl, rfl, rfl, rfl, rfl, rfl⟩, fun _ => rfl⟩
+          ⟨rfl, rfl, rfl, rfl, rfl, rfl, rfl⟩, fun _ => rfl⟩
   case signal_writeConnectionLost =>
     simp only [runOut, hc]
     cases hp : c.proto with
@@ -543,7 +557,7 @@ theorem runOut_extra (uid : Nat) (arg : Bytes) (o : SubChannel.Output) (s : Side
       | full => exact ⟨Extra.refl' hc, fun _ => rfl⟩
       | half =>
         exact ⟨emitCase (.writeLost q) _ (fun _ _ h => by cases h) (fun _ _ _ h => by cases h) rfl rfl rfl
-          ⟨rfl, rfl, rfl, rfl, rfl, rfl⟩, fun _ => rfl⟩
+          ⟨rfl, rfl, rfl, rfl, rfl, rfl, rfl⟩, fun _ => rfl⟩
   case signal_connectionLost =>
     simp only [runOut, hc]
     cases hp : c.proto with
@@ -551,7 +565,7 @@ theorem runOut_extra (uid : Nat) (arg : Bytes) (o : SubChannel.Output) (s : Side
     | some x =>
       obtain ⟨q, k⟩ := x
       exact ⟨emitCase (.lost q) _ (fun _ _ h => by cases h) (fun _ _ _ h => by cases h) rfl rfl rfl
-        ⟨rfl, rfl, rfl, rfl, rfl, rfl⟩, fun _ => rfl⟩
+        ⟨rfl, rfl, rfl, rfl, rfl, rfl, rfl⟩, fun _ => rfl⟩
   case close_subchannel =>
     simp only [runOut, hc]
     cases hlk : lookup c.scid s.open_ with
@@ -559,7 +573,7 @@ theorem runOut_extra (uid : Nat) (arg : Bytes) (o : SubChannel.Output) (s : Side
     | some u0 =>
       by_cases hu : u0 = uid
       · simp only [hu, if_true]
-        refine ⟨⟨⟨rfl, rfl, rfl, rfl, rfl, rfl⟩, eraseKey_sublist _ _, fun k hk => lookup_eraseKey_ne _ _ hk _,
+        refine ⟨⟨⟨rfl, rfl, rfl, rfl, rfl, rfl, rfl⟩, eraseKey_sublist _ _, fun k hk => lookup_eraseKey_ne _ _ hk _,
           fun _ => by rw [hlk, hu], fun _ => rfl, rfl, fun _ h => h, ?_⟩, fun h => absurd rfl h⟩
         intro c' h hp
         have : ({ s with open_ := eraseKey c.scid s.open_ } : Side).subs[uid]? = s.subs[uid]? := rfl
@@ -634,7 +648,7 @@ theorem scInput_extra {s : Side} (uid : Nat) (i : SubChannel.Input) (arg : Bytes
     obtain ⟨l, ro, _⟩ := runOuts_spec uid arg outs _ _ hc1
     obtain ⟨c', hc', g1, g2, g3, g4⟩ := ro.self
     refine ⟨?_, ?_, ?_, ro.pc, c', hc', g1, g2, g4, Or.inr ⟨outs, by rw [g3]⟩⟩
-    · exact ⟨⟨e.same.1, e.same.2, e.same.3, e.same.4, e.same.5, e.same.6⟩, e.openSub, e.openOther, e.openChanged, e.builds, e.opens, e.logMono, e.pdata⟩
+    · exact ⟨⟨e.same.1, e.same.2, e.same.3, e.same.4, e.same.5, e.same.6, e.same.7⟩, e.openSub, e.openOther, e.openChanged, e.builds, e.opens, e.logMono, e.pdata⟩
     · intro hst
       rw [hst] at ht
       exact o (unconnected_no_close i st' outs ht)
@@ -1416,7 +1430,12 @@ theorem connectTail_spec (s : Side) (uid : Nat) (c : SC) (name : String) (k : PK
     rw [scInput_eq_row [] hc1 (by simpa [hst] using ht)]
     rfl
   refine ⟨emit (.made s.protoCount) (updSC uid (fun c0 => { c0 with st := st' }) s1), ?_, ?_, rfl, by simp [emit, updSC, s1, buildProtocol],
-    ⟨rfl, rfl, rfl, rfl, rfl, rfl⟩, ?_, by simp [emit, updSC, s1, buildProtocol], ?_⟩
+    ⟨rfl, rfl, rfl, rfl, rfl, rfl, rfl⟩, ?_, by simp [emit, updSC, s1, buildProtocol], ?_, ?_⟩
+  rotate_right
+  · intro c' hc'
+    simp [emit, updSC, getElem?_modifyAt, hc1] at hc'
+    subst hc'
+    simp [st']
   · unfold connectTail
     simp only [hset, andThen_none]
   · simp [emit, updSC, s1, buildProtocol, pendEffs, hname]
@@ -1561,7 +1580,7 @@ theorem handleData_connected (s : Side) (scid uid : Nat) (d : Bytes) (c : SC) (p
       unfold runOut; rw [hc1]; simp only [hp]
     rw [this]; rfl
   refine ⟨emit (.data pb d) (updSC uid (fun c0 => { c0 with st := c.st }) s),
-    by unfold handleData; rw [hl]; exact hstep, rfl, rfl, hc1, ?_, ⟨rfl, rfl, rfl, rfl, rfl, rfl⟩, rfl, rfl, rfl⟩
+    by unfold handleData; rw [hl]; exact hstep, rfl, rfl, hc1, ?_, ⟨rfl, rfl, rfl, rfl, rfl, rfl, rfl⟩, rfl, rfl, rfl⟩
   intro u hu; simp [emit, updSC, getElem?_modifyAt, hu]
 
 theorem handleData_queued (s : Side) (scid uid : Nat) (d : Bytes) (c : SC) (l : List Bytes)
